@@ -198,6 +198,76 @@ impl Family for ExecTails {
     }
 }
 
+/// every prefix of well-formed parameter blocks (bind and reuse forms, several NULL bitmaps,
+/// with and without pending long data, with and without an earlier valid bind)
+struct ExecPrefixes {
+    nparams: usize,
+}
+impl ExecPrefixes {
+    fn case(&self, idx: u64) -> (Vec<u8>, bool, bool, String) {
+        let d = digits(idx, &[3, 2, 2, 2, 64]);
+        let n = self.nparams;
+        let nulls = |i: usize| match d[0] {
+            0 => false,
+            1 => true,
+            _ => i % 2 == 0,
+        };
+        let bind = d[1] == 1;
+        let long_pending = d[2] == 1;
+        let earlier_bind = d[3] == 1;
+        let ps: Vec<ExecParam> = (0..n)
+            .map(|i| ExecParam {
+                ty: if i % 2 == 0 { 0x03 } else { 0xfd },
+                unsigned: false,
+                wire: if nulls(i) || long_pending { None } else if i % 2 == 0 { Some(vec![1, 2, 3, 4]) } else { Some(vec![2, b'h', b'i']) },
+                long: long_pending && !nulls(i),
+            })
+            .collect();
+        let mut b = exec_block(&ps, bind);
+        let cut = (d[4] as usize).min(b.len());
+        b.truncate(cut);
+        (b, long_pending, earlier_bind, format!("nulls={} bind={} long_data_pending={} earlier_bind={} prefix={}", d[0], bind, long_pending, earlier_bind, cut))
+    }
+}
+impl Family for ExecPrefixes {
+    fn name(&self) -> String {
+        format!("execute-block-prefixes-p{}", self.nparams)
+    }
+    fn len(&self) -> u64 {
+        3 * 2 * 2 * 2 * 64
+    }
+    fn run(&self, idx: u64, st: &mut Stats) -> Result<(), Violation> {
+        let (b, long_pending, earlier_bind, what) = self.case(idx);
+        st.nontrivial += 1;
+        st.bump("block_prefixes");
+        let n = self.nparams;
+        let mut s = prefix(n);
+        if earlier_bind {
+            let good: Vec<ExecParam> = (0..n)
+                .map(|i| ExecParam {
+                    ty: if i % 2 == 0 { 0x03 } else { 0xfd },
+                    unsigned: false,
+                    wire: if i % 2 == 0 { Some(vec![9, 9, 9, 9]) } else { Some(vec![1, b'x']) },
+                    long: false,
+                })
+                .collect();
+            s.extend_from_slice(&frame(0, &cmd_execute(1, 0, 1, &exec_block(&good, true))).0);
+        }
+        if long_pending {
+            for i in 0..n {
+                s.extend_from_slice(&frame(0, &cmd_long(1, i as u16, b"L")).0);
+            }
+        }
+        s.extend_from_slice(&frame(0, &cmd_execute(1, 0, 1, &b)).0);
+        s.extend_from_slice(&frame(0, &[COM_PING]).0);
+        judge(s, &format!("execute block prefix ({}) {}", what, hex(&b)), st)
+    }
+    fn describe(&self, idx: u64) -> J {
+        let (b, _, _, what) = self.case(idx);
+        json!({"declared_params": self.nparams, "case": what, "parameter_block_hex": hex(&b)})
+    }
+}
+
 fn base_conversations() -> Vec<(String, Vec<u8>, Vec<usize>)> {
     let mut v = Vec::new();
     let mut add = |label: &str, cmds: Vec<ClientCmd>| {
@@ -385,6 +455,9 @@ pub fn build(quick: bool) -> Check {
     for p in if quick { vec![1usize] } else { vec![1usize, 2, 9] } {
         families.push(Box::new(ExecTails { nparams: p }));
     }
+    for p in [1usize, 2, 9] {
+        families.push(Box::new(ExecPrefixes { nparams: p }));
+    }
     for (label, base, headers) in base_conversations() {
         families.push(Box::new(Mutations { label, base, headers }));
     }
@@ -409,7 +482,7 @@ pub fn build(quick: bool) -> Check {
     Check {
         id: "C20",
         level: "model_checking",
-        rule: "client byte strings: all raw strings of length <= 5/6 over a 13-symbol alphabet of command and marker bytes (after handshake+PREPARE, and as the handshake itself); all framed payloads of length <= 2/3 over all 256 byte values; COM_STMT_EXECUTE parameter blocks (4 bitmaps x 3 flags x 256 type codes x unsigned x values of <= 3 bytes over 6 marker bytes, with and without a preceding valid bind; 1/2/9 declared parameters); for 5 valid conversations and 3 handshake forms every single-byte substitution by every value (this includes every sequence id 0..255 and every length-field value on every packet), every truncation, deletion and duplication; two-fragment requests with every pair of fragment ids from a boundary set. Oracle: run_on returns (Ok or Err) without panicking and within 200000 transport operations; flushed output is well-framed. Non-trivial = input differs from a valid conversation.".into(),
+        rule: "client byte strings: all raw strings of length <= 5/6 over a 13-symbol alphabet of command and marker bytes (after handshake+PREPARE, and as the handshake itself); all framed payloads of length <= 2/3 over all 256 byte values; COM_STMT_EXECUTE parameter blocks (4 bitmaps x 3 flags x 256 type codes x unsigned x values of <= 3 bytes over 6 marker bytes, with and without a preceding valid bind; 1/2/9 declared parameters); every prefix of well-formed bind and reuse blocks x NULL bitmaps x pending long data x earlier bind; for 5 valid conversations and 3 handshake forms every single-byte substitution by every value (this includes every sequence id 0..255 and every length-field value on every packet), every truncation, deletion and duplication; two-fragment requests with every pair of fragment ids from a boundary set. Oracle: run_on returns (Ok or Err) without panicking and within 200000 transport operations; flushed output is well-framed. Non-trivial = input differs from a valid conversation.".into(),
         assumptions: vec![
             "random bytes are not used as a deciding step (sampling is outside this family)".into(),
             "the shim iterates all parameters and reads them with into_inner(); the panicking From<Value> conversions are the shim author's calls, not run_on's".into(),
@@ -418,6 +491,6 @@ pub fn build(quick: bool) -> Check {
         exhaustive: true,
         caps_hit: vec![],
         families,
-        required: vec!["outcome_ok", "outcome_err", "executes_reaching_the_shim", "sequence_id_mutations", "length_field_mutations", "out_of_order_fragments"],
+        required: vec!["outcome_ok", "outcome_err", "executes_reaching_the_shim", "sequence_id_mutations", "length_field_mutations", "out_of_order_fragments", "block_prefixes"],
     }
 }
